@@ -679,8 +679,8 @@ def mutants(tree):
         Mutant("zero f but not df (v2, NPOL)", XE2, "                else:\n                    df[scond, :] = 0.0\n", "",
                expect="cutoff-pair"),
         Mutant("v2 SEP derivative mask from other array", XE2,
-               "            cond = rho_tuple[0] < rhocut\n            if self.mode == \"SEP\":\n                f[cond] = 0.0\n                df[cond] = 0.0",
-               "            cond = rho_tuple[0] < rhocut\n            if self.mode == \"SEP\":\n                f[cond] = 0.0\n                df[rho_tuple[1][::2] < rhocut] = 0.0",
+               "            cond = rho_tuple[0].shape[0] * rho_tuple[0] < rhocut\n            if self.mode == \"SEP\":\n                f[cond] = 0.0\n                df[cond] = 0.0",
+               "            cond = rho_tuple[0].shape[0] * rho_tuple[0] < rhocut\n            if self.mode == \"SEP\":\n                f[cond] = 0.0\n                df[rho_tuple[1][::2] < rhocut] = 0.0",
                expect="cutoff-pair"),
         Mutant("POL dropped from descriptor ladder", XE,
                "        if self.mode == \"SEP\" or self.mode == \"POL\":\n            dfdX0T = np.zeros_like(X0T)",
